@@ -138,9 +138,9 @@ func (s *sorter) structOf(t types.Type) *structInfo {
 		fl = append(fl, fmt.Sprintf("(%s %s)", sel, s.sortOf(f.Type())))
 	}
 	if len(fl) == 0 {
-		s.sc.RawItem(fmt.Sprintf("(declare-datatypes ((%s 0)) (((%s))))", si.sort, si.ctor), append([]string{si.sort, si.ctor}, si.fields...))
+		s.sc.SortItem(fmt.Sprintf("(declare-datatypes ((%s 0)) (((%s))))", si.sort, si.ctor), append([]string{si.sort, si.ctor}, si.fields...))
 	} else {
-		s.sc.RawItem(fmt.Sprintf("(declare-datatypes ((%s 0)) (((%s %s))))", si.sort, si.ctor, strings.Join(fl, " ")), append([]string{si.sort, si.ctor}, si.fields...))
+		s.sc.SortItem(fmt.Sprintf("(declare-datatypes ((%s 0)) (((%s %s))))", si.sort, si.ctor, strings.Join(fl, " ")), append([]string{si.sort, si.ctor}, si.fields...))
 	}
 	return si
 }
